@@ -496,4 +496,594 @@ theorem runs_demo : runs 60 [0, 60, 120, 240, 300] = [(0, 120), (240, 300)] ∧ 
   refine ⟨by decide, ?_⟩
   simp [Asc]
 
+
+set_option linter.unusedVariables false
+
+/-! ## the MergeRanges fixpoint over whole lists, any arrival order -/
+
+/-- not more than `step` apart (the negation of "separated" in either direction) -/
+def near (a b : MTR) (step : Int) : Bool := decide (a.s ≤ b.e + step ∧ b.s ≤ a.e + step)
+
+/-- the relation every two ranges of a family keep: strictly ordered in both coordinates, and either touching
+(no uncovered second between them) or more than a step apart -/
+def Rel (step : Int) (x y : MTR) : Prop :=
+  (x.s < y.s ∧ x.e < y.e ∧ (y.s ≤ x.e + 1 ∨ x.e + step < y.s)) ∨
+  (y.s < x.s ∧ y.e < x.e ∧ (x.s ≤ y.e + 1 ∨ y.e + step < x.s))
+
+def F2 (step : Int) (x y z : MTR) : Prop := x.s < y.s → y.s < z.s → x.e + step < z.s
+
+/-- `x'` is what the inner loop of MergeRanges made of `x` when `src` came by: untouched, or the hull -/
+def Became (step : Int) (src x x' : MTR) : Prop :=
+  (x'.s = x.s ∧ x'.e = x.e) ∨ (x.s ≤ src.e + step ∧ src.s ≤ x.e + step ∧ x'.s = min x.s src.s ∧ x'.e = max x.e src.e)
+
+theorem rel_symm {step : Int} {x y : MTR} (h : Rel step x y) : Rel step y x := by
+  unfold Rel at *; omega
+
+theorem rel_irrefl (step : Int) (x : MTR) : ¬ Rel step x x := by
+  unfold Rel; omega
+
+/-- `Overlaps` on two ranges that are strictly ordered in both coordinates: fires exactly when they are near, with the
+hull, whichever is the first argument -/
+theorem overlaps_stair (a b : MTR) (step : Int) (hs : 0 ≤ step) (hfp : a.fp = b.fp) (ha : a.s ≤ a.e) (hb : b.s ≤ b.e)
+    (hst : (a.s < b.s ∧ a.e < b.e) ∨ (b.s < a.s ∧ b.e < a.e)) :
+    overlaps a b step = if near a b step then some ⟨min a.s b.s, max a.e b.e⟩ else none := by
+  cases ho : overlaps a b step with
+  | some c =>
+    obtain ⟨h1, h2, h3, h4⟩ := overlaps_some_is_hull a b step hs ha hb c ho
+    have : near a b step = true := by simp [near]; omega
+    rw [this]; simp
+    cases c; simp_all
+  | none =>
+    have : near a b step = false := by
+      unfold overlaps at ho
+      simp only [hfp, ne_eq, not_true_eq_false, if_false, iabs_le] at ho
+      simp only [near, decide_eq_false_iff_not]
+      repeat' split at ho
+      all_goals first | (cases ho; done) | omega
+    rw [this]; simp
+
+theorem order_kept (step : Int) (src x y x' y' : MTR)
+    (rxy : Rel step x y) (hx : Became step src x x') (hy : Became step src y y')
+    (u6 : F2 step src y x) (h : x'.s < y'.s) : x.s < y.s := by
+  unfold F2 Rel Became at *
+  omega
+
+theorem far2_core (step : Int) (src x y z x' y' z' : MTR)
+    (hxy : x.s < y.s) (hyz : y.s < z.s)
+    (rxs : Rel step x src) (rys : Rel step y src) (rzs : Rel step z src)
+    (hx : Became step src x x') (hz : Became step src z z')
+    (t1 : F2 step x y z) (u1 : F2 step x y src) (w5 : F2 step src y z) :
+    x'.e + step < z'.s := by
+  unfold F2 Rel Became at *
+  omega
+
+theorem rel_core (step : Int) (hs : 1 ≤ step) (src x y x' y' : MTR)
+    (wx : x.s ≤ x.e) (wy : y.s ≤ y.e) (ws : src.s ≤ src.e)
+    (rxy : Rel step x y) (rxs : Rel step x src) (rys : Rel step y src)
+    (hx : Became step src x x') (hy : Became step src y y')
+    (u1 : F2 step x y src) (u2 : F2 step x src y) (u3 : F2 step y x src) (u4 : F2 step y src x) (u5 : F2 step src x y) (u6 : F2 step src y x) :
+    Rel step x' y' := by
+  unfold F2 Rel Became at *
+  rcases rxy with ⟨a, b, c⟩ | ⟨a, b, c⟩
+  · clear u3 u4 u6
+    rcases hx with ⟨p, q⟩ | ⟨p, q, r, t⟩ <;> rcases hy with ⟨p', q'⟩ | ⟨p', q', r', t'⟩ <;> rcases rxs with ⟨d, e, f⟩ | ⟨d, e, f⟩ <;> rcases rys with ⟨d', e', f'⟩ | ⟨d', e', f'⟩ <;> omega
+  · clear u1 u2 u5
+    rcases hx with ⟨p, q⟩ | ⟨p, q, r, t⟩ <;> rcases hy with ⟨p', q'⟩ | ⟨p', q', r', t'⟩ <;> rcases rxs with ⟨d, e, f⟩ | ⟨d, e, f⟩ <;> rcases rys with ⟨d', e', f'⟩ | ⟨d', e', f'⟩ <;> omega
+
+/-- what the inner loop of MergeRanges does to one accumulated range -/
+def gmap (step : Int) (src m : MTR) : MTR :=
+  if near m src step then { m with s := min m.s src.s, e := max m.e src.e } else m
+
+theorem became_gmap (step : Int) (src m : MTR) : Became step src m (gmap step src m) := by
+  unfold Became gmap
+  cases h : near m src step with
+  | false => simp
+  | true =>
+    simp only [near, decide_eq_true_eq] at h
+    right; exact ⟨h.1, h.2, by simp, by simp⟩
+
+theorem became_self (step : Int) (src m : MTR) : Became step src m m := Or.inl ⟨rfl, rfl⟩
+
+/-- a family of ranges of one series as MergeRanges meets them in a range query -/
+structure Fam (step : Int) (fp : Nat) (F : List MTR) : Prop where
+  wf : ∀ x ∈ F, x.fp = fp ∧ x.s ≤ x.e
+  rel : F.Pairwise (Rel step)
+  far2 : ∀ x ∈ F, ∀ y ∈ F, ∀ z ∈ F, F2 step x y z
+
+theorem rel_of_mem {step : Int} {F : List MTR} (h : F.Pairwise (Rel step)) {x y : MTR} (hx : x ∈ F) (hy : y ∈ F) (hne : x ≠ y) :
+    Rel step x y := by
+  induction F with
+  | nil => simp at hx
+  | cons a F ih =>
+    rw [List.pairwise_cons] at h
+    rcases List.mem_cons.mp hx with rfl | hx' <;> rcases List.mem_cons.mp hy with rfl | hy'
+    · exact absurd rfl hne
+    · exact h.1 y hy'
+    · exact rel_symm (h.1 x hx')
+    · exact ih h.2 hx' hy'
+
+theorem Fam.perm {step : Int} {fp : Nat} {F G : List MTR} (h : Fam step fp F) (p : F.Perm G) : Fam step fp G :=
+  ⟨fun x hx => h.wf x (p.symm.subset hx),
+   h.rel.perm p (fun r => rel_symm r),
+   fun x hx y hy z hz => h.far2 x (p.symm.subset hx) y (p.symm.subset hy) z (p.symm.subset hz)⟩
+
+theorem Fam.sublist {step : Int} {fp : Nat} {F G : List MTR} (h : Fam step fp F) (p : G.Sublist F) : Fam step fp G :=
+  ⟨fun x hx => h.wf x (p.subset hx),
+   h.rel.sublist p,
+   fun x hx y hy z hz => h.far2 x (p.subset hx) y (p.subset hy) z (p.subset hz)⟩
+
+/-- the inner loop, in closed form, for a source range that is strictly ordered against everything accumulated -/
+theorem absorb_eq (step : Int) (hs : 0 ≤ step) (src : MTR) (hsrc : src.s ≤ src.e) (acc : List MTR)
+    (h : ∀ m ∈ acc, m.fp = src.fp ∧ m.s ≤ m.e ∧ Rel step m src) :
+    absorb step src acc = (acc.map (gmap step src), acc.any fun m => near m src step) := by
+  induction acc with
+  | nil => simp [absorb]
+  | cons m rest ih =>
+    have hm := h m (List.mem_cons_self ..)
+    have ih' := ih (fun x hx => h x (List.mem_cons_of_mem _ hx))
+    have hst : (m.s < src.s ∧ m.e < src.e) ∨ (src.s < m.s ∧ src.e < m.e) := by
+      have := hm.2.2; unfold Rel at this; omega
+    have ho := overlaps_stair m src step hs hm.1 hm.2.1 hsrc hst
+    simp only [absorb, ih', ho, List.map_cons, List.any_cons]
+    cases hn : near m src step with
+    | true => simp [gmap, hn]
+    | false => simp [gmap, hn]
+
+/-- facts about the source range and the rest, read off the family invariant -/
+theorem fam_split {step : Int} {fp : Nat} {acc rest : List MTR} {src : MTR} (h : Fam step fp (acc ++ src :: rest)) :
+    (∀ a ∈ acc, Rel step a src) ∧ (∀ b ∈ rest, Rel step src b) ∧ (∀ a ∈ acc, ∀ b ∈ rest, Rel step a b) ∧
+    acc.Pairwise (Rel step) ∧ rest.Pairwise (Rel step) := by
+  have := h.rel
+  rw [List.pairwise_append, List.pairwise_cons] at this
+  obtain ⟨h1, ⟨h2, h3⟩, h4⟩ := this
+  exact ⟨fun a ha => h4 a ha src (List.mem_cons_self ..), h2, fun a ha b hb => h4 a ha b (List.mem_cons_of_mem _ hb), h1, h3⟩
+
+/-- one source range through the inner loop keeps the family invariant (whether or not anything merged: when nothing
+did, this is the family without the source) -/
+theorem fam_step {step : Int} (hs : 1 ≤ step) {fp : Nat} {acc rest : List MTR} {src : MTR}
+    (h : Fam step fp (acc ++ src :: rest)) : Fam step fp (acc.map (gmap step src) ++ rest) := by
+  obtain ⟨ras, rsb, rab, pacc, prest⟩ := fam_split h
+  have msrc : src ∈ acc ++ src :: rest := by simp
+  have macc : ∀ a ∈ acc, a ∈ acc ++ src :: rest := fun a ha => List.mem_append.mpr (Or.inl ha)
+  have mrest : ∀ b ∈ rest, b ∈ acc ++ src :: rest := fun b hb => List.mem_append.mpr (Or.inr (List.mem_cons_of_mem _ hb))
+  have wsrc := h.wf src msrc
+  -- every new range comes from one old range, by position
+  have origin : ∀ x' ∈ acc.map (gmap step src) ++ rest,
+      ∃ x, ((x ∈ acc ∧ x' = gmap step src x) ∨ (x ∈ rest ∧ x' = x)) := by
+    intro x' hx'
+    rcases List.mem_append.mp hx' with hm | hr
+    · obtain ⟨a, ha, rfl⟩ := List.mem_map.mp hm
+      exact ⟨a, Or.inl ⟨ha, rfl⟩⟩
+    · exact ⟨x', Or.inr ⟨hr, rfl⟩⟩
+  have ofam : ∀ {x' x : MTR}, ((x ∈ acc ∧ x' = gmap step src x) ∨ (x ∈ rest ∧ x' = x)) →
+      x ∈ acc ++ src :: rest ∧ Became step src x x' ∧ Rel step x src := by
+    intro x' x hx
+    rcases hx with ⟨ha, e⟩ | ⟨hb, e⟩
+    · exact ⟨macc x ha, e ▸ became_gmap step src x, ras x ha⟩
+    · exact ⟨mrest x hb, e ▸ became_self step src x, rel_symm (rsb x hb)⟩
+  have same : ∀ {x' y' x : MTR}, ((x ∈ acc ∧ x' = gmap step src x) ∨ (x ∈ rest ∧ x' = x)) →
+      ((x ∈ acc ∧ y' = gmap step src x) ∨ (x ∈ rest ∧ y' = x)) → x' = y' := by
+    intro x' y' x hx hy
+    rcases hx with ⟨ha, e⟩ | ⟨hb, e⟩ <;> rcases hy with ⟨ha', e'⟩ | ⟨hb', e'⟩
+    · rw [e, e']
+    · exact absurd (rab x ha x hb') (rel_irrefl step x)
+    · exact absurd (rab x ha' x hb) (rel_irrefl step x)
+    · rw [e, e']
+  refine ⟨?_, ?_, ?_⟩
+  · -- well-formed
+    intro x' hx'
+    obtain ⟨x, hx⟩ := origin x' hx'
+    obtain ⟨hm, hb, _⟩ := ofam hx
+    have wx := h.wf x hm
+    rcases hx with ⟨ha, e⟩ | ⟨hb', e⟩
+    · rw [e]; unfold gmap; split
+      · exact ⟨wx.1, by simp only; omega⟩
+      · exact wx
+    · rw [e]; exact wx
+  · -- pairwise relation
+    rw [List.pairwise_append, List.pairwise_map]
+    refine ⟨?_, prest, ?_⟩
+    · refine pacc.imp_of_mem ?_
+      intro a b ha hb rab'
+      exact rel_core step hs src a b _ _ (h.wf a (macc a ha)).2 (h.wf b (macc b hb)).2 wsrc.2 rab' (ras a ha) (ras b hb)
+        (became_gmap step src a) (became_gmap step src b)
+        (h.far2 a (macc a ha) b (macc b hb) src msrc) (h.far2 a (macc a ha) src msrc b (macc b hb))
+        (h.far2 b (macc b hb) a (macc a ha) src msrc) (h.far2 b (macc b hb) src msrc a (macc a ha))
+        (h.far2 src msrc a (macc a ha) b (macc b hb)) (h.far2 src msrc b (macc b hb) a (macc a ha))
+    · intro a' ha' b hb
+      obtain ⟨a, ha, rfl⟩ := List.mem_map.mp ha'
+      exact rel_core step hs src a b _ _ (h.wf a (macc a ha)).2 (h.wf b (mrest b hb)).2 wsrc.2 (rab a ha b hb) (ras a ha) (rel_symm (rsb b hb))
+        (became_gmap step src a) (became_self step src b)
+        (h.far2 a (macc a ha) b (mrest b hb) src msrc) (h.far2 a (macc a ha) src msrc b (mrest b hb))
+        (h.far2 b (mrest b hb) a (macc a ha) src msrc) (h.far2 b (mrest b hb) src msrc a (macc a ha))
+        (h.far2 src msrc a (macc a ha) b (mrest b hb)) (h.far2 src msrc b (mrest b hb) a (macc a ha))
+  · -- nothing strictly between two ranges that are near
+    intro x' hx' y' hy' z' hz' hxy hyz
+    obtain ⟨x, ox⟩ := origin x' hx'
+    obtain ⟨y, oy⟩ := origin y' hy'
+    obtain ⟨z, oz⟩ := origin z' hz'
+    obtain ⟨mx, bx, rx⟩ := ofam ox
+    obtain ⟨my, by_, ry⟩ := ofam oy
+    obtain ⟨mz, bz, rz⟩ := ofam oz
+    have nxy : x ≠ y := by
+      intro e; subst e
+      have := same ox oy
+      rw [this] at hxy; omega
+    have nyz : y ≠ z := by
+      intro e; subst e
+      have := same oy oz
+      rw [this] at hyz; omega
+    have rxy := rel_of_mem h.rel mx my nxy
+    have ryz := rel_of_mem h.rel my mz nyz
+    have oxy := order_kept step src x y x' y' rxy bx by_ (h.far2 src msrc y my x mx) hxy
+    have oyz := order_kept step src y z y' z' ryz by_ bz (h.far2 src msrc z mz y my) hyz
+    exact far2_core step src x y z x' y' z' oxy oyz rx ry rz bx bz (h.far2 x mx y my z mz) (h.far2 x mx y my src msrc) (h.far2 src msrc y my z mz)
+
+/-- seconds covered by some range of the list -/
+def covered (F : List MTR) (t : Int) : Prop := ∃ x ∈ F, x.s ≤ t ∧ t ≤ x.e
+
+/-- when something merged, the source range is gone and nothing else changed in what is covered -/
+theorem cov_step {step : Int} (hs : 1 ≤ step) {fp : Nat} {acc rest : List MTR} {src : MTR}
+    (h : Fam step fp (acc ++ src :: rest)) (fired : (acc.any fun m => near m src step) = true) (t : Int) :
+    covered (acc.map (gmap step src) ++ rest) t ↔ covered (acc ++ src :: rest) t := by
+  obtain ⟨ras, rsb, rab, pacc, prest⟩ := fam_split h
+  constructor
+  · rintro ⟨x', hx', h1, h2⟩
+    rcases List.mem_append.mp hx' with hm | hr
+    · obtain ⟨a, ha, rfl⟩ := List.mem_map.mp hm
+      have ra := ras a ha
+      unfold gmap at h1 h2
+      cases hn : near a src step with
+      | false =>
+        simp only [hn] at h1 h2
+        exact ⟨a, List.mem_append.mpr (Or.inl ha), h1, h2⟩
+      | true =>
+        simp only [hn, if_true] at h1 h2
+        simp only [near, decide_eq_true_eq] at hn
+        unfold Rel at ra
+        by_cases hin : a.s ≤ t ∧ t ≤ a.e
+        · exact ⟨a, List.mem_append.mpr (Or.inl ha), hin.1, hin.2⟩
+        · exact ⟨src, by simp, by omega, by omega⟩
+    · exact ⟨x', List.mem_append.mpr (Or.inr (List.mem_cons_of_mem _ hr)), h1, h2⟩
+  · rintro ⟨x, hx, h1, h2⟩
+    rcases List.mem_append.mp hx with ha | hsr
+    · refine ⟨gmap step src x, List.mem_append.mpr (Or.inl (List.mem_map.mpr ⟨x, ha, rfl⟩)), ?_, ?_⟩ <;>
+        (unfold gmap; split <;> (try simp only) <;> omega)
+    · rcases List.mem_cons.mp hsr with rfl | hr
+      · obtain ⟨a, ha, hn⟩ := List.any_eq_true.mp fired
+        refine ⟨gmap step x a, List.mem_append.mpr (Or.inl (List.mem_map.mpr ⟨a, ha, rfl⟩)), ?_, ?_⟩ <;>
+          (unfold gmap; simp only [hn, if_true]; omega)
+      · exact ⟨x, List.mem_append.mpr (Or.inr hr), h1, h2⟩
+
+/-- a pass in which nothing merges: no source range is near anything that came before it -/
+def Quiet (step : Int) : List MTR → List MTR → Prop
+  | _, [] => True
+  | acc, src :: rest => (∀ a ∈ acc, near a src step = false) ∧ Quiet step (acc ++ [src]) rest
+
+theorem mergePass_spec (step : Int) (hs : 1 ≤ step) (fp : Nat) (l : List MTR) :
+    ∀ acc : List MTR, Fam step fp (acc ++ l) →
+      Fam step fp (mergePass step l acc).1 ∧
+      (∀ t, covered (mergePass step l acc).1 t ↔ covered (acc ++ l) t) ∧
+      (mergePass step l acc).1.length ≤ (acc ++ l).length ∧
+      ((mergePass step l acc).2 = true → (mergePass step l acc).1.length < (acc ++ l).length) ∧
+      ((mergePass step l acc).2 = false → (mergePass step l acc).1 = acc ++ l) ∧
+      ((mergePass step l acc).2 = false ↔ Quiet step acc l) := by
+  induction l with
+  | nil =>
+    intro acc h
+    have h' : Fam step fp acc := by simpa using h
+    simp [mergePass, Quiet, h']
+  | cons src rest ih =>
+    intro acc h
+    obtain ⟨ras, rsb, rab, pacc, prest⟩ := fam_split h
+    have msrc : src ∈ acc ++ src :: rest := by simp
+    have wsrc := h.wf src msrc
+    have habs := absorb_eq step (by omega) src wsrc.2 acc (fun m hm => by
+      have wm := h.wf m (List.mem_append.mpr (Or.inl hm))
+      exact ⟨wm.1.trans wsrc.1.symm, wm.2, ras m hm⟩)
+    cases hf : (acc.any fun m => near m src step) with
+    | true =>
+      have hfam := fam_step hs h
+      obtain ⟨i1, i2, i3, i4, i5, i6⟩ := ih (acc.map (gmap step src)) hfam
+      have e : mergePass step (src :: rest) acc = ((mergePass step rest (acc.map (gmap step src))).1, true) := by
+        simp [mergePass, habs, hf]
+      rw [e]
+      refine ⟨i1, ?_, ?_, ?_, by simp, ?_⟩
+      · intro t; rw [i2 t]; exact cov_step hs h hf t
+      · simp only [List.length_append, List.length_map, List.length_cons] at *; omega
+      · intro _; simp only [List.length_append, List.length_map, List.length_cons] at *; omega
+      · simp only [Bool.true_eq_false, false_iff, Quiet]
+        intro hq
+        obtain ⟨a, ha, hn⟩ := List.any_eq_true.mp hf
+        rw [hq.1 a ha] at hn; cases hn
+    | false =>
+      have hfam : Fam step fp ((acc ++ [src]) ++ rest) := by simpa using h
+      obtain ⟨i1, i2, i3, i4, i5, i6⟩ := ih (acc ++ [src]) hfam
+      have e : mergePass step (src :: rest) acc = mergePass step rest (acc ++ [src]) := by
+        simp [mergePass, habs, hf]
+      have ea : (acc ++ [src]) ++ rest = acc ++ src :: rest := by simp
+      rw [e]
+      rw [ea] at i2 i3 i4 i5
+      refine ⟨i1, i2, i3, i4, i5, ?_⟩
+      rw [i6]
+      simp only [Quiet]
+      constructor
+      · intro hq
+        refine ⟨?_, hq⟩
+        intro a ha
+        cases hn : near a src step with
+        | false => rfl
+        | true =>
+          have : (acc.any fun m => near m src step) = true := List.any_eq_true.mpr ⟨a, ha, hn⟩
+          rw [hf] at this; cases this
+      · intro hq; exact hq.2
+
+/-- no two ranges of the list are near: a fixpoint of MergeRanges -/
+def NoNear (step : Int) (l : List MTR) : Prop := l.Pairwise fun a b => near a b step = false
+
+theorem quiet_iff (step : Int) (l : List MTR) : ∀ acc, Quiet step acc l ↔ ((∀ a ∈ acc, ∀ b ∈ l, near a b step = false) ∧ NoNear step l) := by
+  induction l with
+  | nil => intro acc; simp [Quiet, NoNear]
+  | cons src rest ih =>
+    intro acc
+    simp only [Quiet, ih, NoNear, List.pairwise_cons, List.mem_append, List.mem_cons, List.not_mem_nil, or_false]
+    constructor
+    · rintro ⟨h1, h2, h3⟩
+      refine ⟨?_, ?_, h3⟩
+      · intro a ha b hb
+        rcases hb with rfl | hb
+        · exact h1 a ha
+        · exact h2 a (Or.inl ha) b hb
+      · intro b hb; exact h2 src (Or.inr rfl) b hb
+    · rintro ⟨h1, h2, h3⟩
+      refine ⟨fun a ha => h1 a ha src (Or.inl rfl), ?_, h3⟩
+      intro a ha b hb
+      rcases ha with ha | rfl
+      · exact h1 a ha b (Or.inr hb)
+      · exact h2 b hb
+
+theorem near_comm (a b : MTR) (step : Int) : near a b step = near b a step := by
+  unfold near; congr 1; exact propext ⟨fun h => ⟨h.2, h.1⟩, fun h => ⟨h.2, h.1⟩⟩
+
+theorem insertSorted_perm (r : MTR) (l : List MTR) : (insertSorted r l).Perm (r :: l) := by
+  induction l with
+  | nil => simp [insertSorted]
+  | cons x rest ih =>
+    simp only [insertSorted]
+    split
+    · exact List.Perm.refl _
+    · exact (List.Perm.cons x ih).trans (List.Perm.swap r x rest)
+
+theorem sortByStart_perm (l : List MTR) : (sortByStart l).Perm l := by
+  induction l with
+  | nil => simp [sortByStart]
+  | cons x rest ih =>
+    have : sortByStart (x :: rest) = insertSorted x (sortByStart rest) := rfl
+    rw [this]
+    exact (insertSorted_perm x _).trans (List.Perm.cons x ih)
+
+theorem insertSorted_sorted (r : MTR) (l : List MTR) (h : l.Pairwise fun a b => a.s ≤ b.s) :
+    (insertSorted r l).Pairwise fun a b => a.s ≤ b.s := by
+  induction l with
+  | nil => simp [insertSorted]
+  | cons x rest ih =>
+    simp only [insertSorted]
+    rw [List.pairwise_cons] at h
+    split
+    · rename_i hle
+      rw [List.pairwise_cons, List.pairwise_cons]
+      refine ⟨?_, h⟩
+      intro a ha
+      rcases List.mem_cons.mp ha with rfl | ha'
+      · exact hle
+      · exact Int.le_trans hle (h.1 a ha')
+    · rename_i hnle
+      rw [List.pairwise_cons]
+      refine ⟨?_, ih h.2⟩
+      intro a ha
+      have := (insertSorted_perm r rest).subset ha
+      rcases List.mem_cons.mp this with rfl | ha'
+      · omega
+      · exact h.1 a ha'
+
+theorem sortByStart_sorted (l : List MTR) : (sortByStart l).Pairwise fun a b => a.s ≤ b.s := by
+  induction l with
+  | nil => simp [sortByStart]
+  | cons x rest ih =>
+    have : sortByStart (x :: rest) = insertSorted x (sortByStart rest) := rfl
+    rw [this]
+    exact insertSorted_sorted x _ ih
+
+theorem covered_perm {F G : List MTR} (p : F.Perm G) (t : Int) : covered F t ↔ covered G t :=
+  ⟨fun ⟨x, hx, h⟩ => ⟨x, p.subset hx, h⟩, fun ⟨x, hx, h⟩ => ⟨x, p.symm.subset hx, h⟩⟩
+
+theorem NoNear.perm {step : Int} {F G : List MTR} (h : NoNear step F) (p : F.Perm G) : NoNear step G :=
+  List.Pairwise.perm h p (fun {x y} hxy => by rw [near_comm]; exact hxy)
+
+/-- `y` is a fixpoint reached from `l`: family invariant kept, nothing near anything, same seconds covered -/
+structure Good (step : Int) (fp : Nat) (l y : List MTR) : Prop where
+  fam : Fam step fp y
+  fix : NoNear step y
+  cov : ∀ t, covered y t ↔ covered l t
+  len : y.length ≤ l.length
+
+theorem Good.refl {step : Int} {fp : Nat} {l : List MTR} (h : Fam step fp l) (hn : NoNear step l) : Good step fp l l :=
+  ⟨h, hn, fun _ => Iff.rfl, Nat.le_refl _⟩
+
+theorem Good.trans {step : Int} {fp : Nat} {l y z : List MTR} (h1 : Good step fp l y) (h2 : Good step fp y z) : Good step fp l z :=
+  ⟨h2.fam, h2.fix, fun t => (h2.cov t).trans (h1.cov t), Nat.le_trans h2.len h1.len⟩
+
+theorem Good.sort {step : Int} {fp : Nat} {l y : List MTR} (h : Good step fp l y) : Good step fp l (sortByStart y) :=
+  have p := sortByStart_perm y
+  ⟨h.fam.perm p.symm, h.fix.perm p.symm, fun t => (covered_perm p t).trans (h.cov t), by rw [p.length_eq]; exact h.len⟩
+
+/-- a pass over a fixpoint changes nothing -/
+theorem pass_fix (step : Int) (hs : 1 ≤ step) (fp : Nat) (l : List MTR) (h : Fam step fp l) :
+    (mergePass step l []).2 = false ↔ NoNear step l := by
+  obtain ⟨_, _, _, _, _, i6⟩ := mergePass_spec step hs fp l [] (by simpa using h)
+  rw [i6, quiet_iff]; simp
+
+def RecSpec (step : Int) (fp : Nat) (f : Nat) : Prop :=
+  ∀ l, Fam step fp l → l.length ≤ f → Good step fp l (mergeRec step f l).1
+
+theorem loop_of_rec (step : Int) (fp : Nat) (f : Nat) (hrec : RecSpec step fp f) :
+    ∀ k l, Fam step fp l → l.length ≤ f → (0 < k ∨ NoNear step l) → Good step fp l (mergeLoop step f k l) := by
+  intro k
+  induction k with
+  | zero =>
+    intro l h hl hk
+    rcases hk with hk | hk
+    · omega
+    · rw [mergeLoop]; exact Good.refl h hk
+  | succ k ih =>
+    intro l h hl _
+    have g := hrec l h hl
+    rw [mergeLoop]
+    simp only
+    split
+    · exact g.trans (ih _ g.fam (Nat.le_trans g.len hl) (Or.inr g.fix))
+    · exact g
+
+theorem rec_spec (step : Int) (hs : 1 ≤ step) (fp : Nat) : ∀ f, RecSpec step fp f := by
+  intro f
+  induction f with
+  | zero =>
+    intro l h hl
+    have : l = [] := List.length_eq_zero_iff.mp (Nat.le_zero.mp hl)
+    subst this
+    rw [mergeRec]
+    exact Good.refl h (by simp [NoNear])
+  | succ f ih =>
+    intro l h hl
+    have spec := mergePass_spec step hs fp l [] (by simpa using h)
+    have pf := pass_fix step hs fp l h
+    rw [mergeRec]
+    rcases hp : mergePass step l [] with ⟨out, merged⟩
+    rw [hp] at spec pf
+    simp only [List.nil_append] at spec pf ⊢
+    obtain ⟨i1, i2, i3, i4, i5, i6⟩ := spec
+    cases merged with
+    | true =>
+      have hlen : out.length ≤ f := by have := i4 rfl; omega
+      have gl := loop_of_rec step fp f ih (out.length + 1) out i1 hlen (Or.inl (by omega))
+      have g : Good step fp l (mergeLoop step f (out.length + 1) out) :=
+        ⟨gl.fam, gl.fix, fun t => (gl.cov t).trans (i2 t), Nat.le_trans gl.len i3⟩
+      simpa using g.sort
+    | false =>
+      simpa using Good.refl h (pf.mp rfl)
+
+/-- the canonical list of presence ranges of one series: sorted by start, every two more than a step apart -/
+structure Canon (step : Int) (fp : Nat) (R : List MTR) : Prop where
+  wf : ∀ x ∈ R, x.fp = fp ∧ x.s ≤ x.e
+  sorted : R.Pairwise fun a b => a.s ≤ b.s
+  apart : NoNear step R
+
+theorem Canon.tail {step : Int} {fp : Nat} {a : MTR} {A : List MTR} (h : Canon step fp (a :: A)) : Canon step fp A :=
+  ⟨fun x hx => h.wf x (List.mem_cons_of_mem _ hx), (List.pairwise_cons.mp h.sorted).2, (List.pairwise_cons.mp h.apart).2⟩
+
+/-- everything behind the head starts more than a step after the head ends -/
+theorem Canon.head_before {step : Int} (hs : 0 ≤ step) {fp : Nat} {a : MTR} {A : List MTR} (h : Canon step fp (a :: A)) :
+    ∀ x ∈ A, a.e + step < x.s := by
+  intro x hx
+  have h1 := (List.pairwise_cons.mp h.sorted).1 x hx
+  have h2 := (List.pairwise_cons.mp h.apart).1 x hx
+  have wx := (h.wf x (List.mem_cons_of_mem _ hx)).2
+  simp only [near, decide_eq_false_iff_not] at h2
+  omega
+
+theorem canon_head_start {step : Int} (hs : 0 ≤ step) {fp : Nat} {a b : MTR} {A B : List MTR}
+    (h1 : Canon step fp (a :: A)) (h2 : Canon step fp (b :: B))
+    (hc : ∀ t, covered (a :: A) t → covered (b :: B) t) : b.s ≤ a.s := by
+  have wa := (h1.wf a (List.mem_cons_self ..)).2
+  obtain ⟨y, hy, hy1, hy2⟩ := hc a.s ⟨a, List.mem_cons_self .., Int.le_refl _, wa⟩
+  rcases List.mem_cons.mp hy with rfl | hy'
+  · exact hy1
+  · have := (List.pairwise_cons.mp h2.sorted).1 y hy'
+    omega
+
+theorem canon_head_end {step : Int} (hs : 1 ≤ step) {fp : Nat} {a b : MTR} {A B : List MTR}
+    (h1 : Canon step fp (a :: A)) (h2 : Canon step fp (b :: B)) (hst : a.s = b.s)
+    (hc : ∀ t, covered (b :: B) t → covered (a :: A) t) : b.e ≤ a.e := by
+  have wa := (h1.wf a (List.mem_cons_self ..)).2
+  have wb := (h2.wf b (List.mem_cons_self ..)).2
+  by_cases hlt : a.e < b.e
+  · obtain ⟨x, hx, hx1, hx2⟩ := hc (a.e + 1) ⟨b, List.mem_cons_self .., by omega, by omega⟩
+    rcases List.mem_cons.mp hx with rfl | hx'
+    · omega
+    · have := h1.head_before (by omega) x hx'
+      omega
+  · omega
+
+/-- a set of seconds has at most one canonical list of ranges -/
+theorem canon_unique (step : Int) (hs : 1 ≤ step) (fp : Nat) :
+    ∀ R₁ R₂ : List MTR, Canon step fp R₁ → Canon step fp R₂ → (∀ t, covered R₁ t ↔ covered R₂ t) → R₁ = R₂ := by
+  intro R₁
+  induction R₁ with
+  | nil =>
+    intro R₂ _ h2 hc
+    cases R₂ with
+    | nil => rfl
+    | cons b B =>
+      have wb := (h2.wf b (List.mem_cons_self ..)).2
+      obtain ⟨x, hx, _⟩ := (hc b.s).mpr ⟨b, List.mem_cons_self .., Int.le_refl _, wb⟩
+      simp at hx
+  | cons a A ih =>
+    intro R₂ h1 h2 hc
+    cases R₂ with
+    | nil =>
+      have wa := (h1.wf a (List.mem_cons_self ..)).2
+      obtain ⟨x, hx, _⟩ := (hc a.s).mp ⟨a, List.mem_cons_self .., Int.le_refl _, wa⟩
+      simp at hx
+    | cons b B =>
+      have wa := h1.wf a (List.mem_cons_self ..)
+      have wb := h2.wf b (List.mem_cons_self ..)
+      have s1 := canon_head_start (by omega) h1 h2 (fun t => (hc t).mp)
+      have s2 := canon_head_start (by omega) h2 h1 (fun t => (hc t).mpr)
+      have hst : a.s = b.s := by omega
+      have e1 := canon_head_end hs h1 h2 hst (fun t => (hc t).mpr)
+      have e2 := canon_head_end hs h2 h1 hst.symm (fun t => (hc t).mp)
+      have hab : a = b := by
+        cases a; cases b; simp only [MTR.mk.injEq] at *
+        exact ⟨wa.1.trans wb.1.symm, hst, by omega⟩
+      subst hab
+      have ha := h1.head_before (by omega)
+      have hb := h2.head_before (by omega)
+      have htail : ∀ t, covered A t ↔ covered B t := by
+        intro t
+        constructor
+        · rintro ⟨x, hx, hx1, hx2⟩
+          obtain ⟨y, hy, hy1, hy2⟩ := (hc t).mp ⟨x, List.mem_cons_of_mem _ hx, hx1, hx2⟩
+          rcases List.mem_cons.mp hy with rfl | hy'
+          · have := ha x hx; omega
+          · exact ⟨y, hy', hy1, hy2⟩
+        · rintro ⟨x, hx, hx1, hx2⟩
+          obtain ⟨y, hy, hy1, hy2⟩ := (hc t).mpr ⟨x, List.mem_cons_of_mem _ hx, hx1, hx2⟩
+          rcases List.mem_cons.mp hy with rfl | hy'
+          · have := hb x hx; omega
+          · exact ⟨y, hy', hy1, hy2⟩
+      rw [ih B h1.tail h2.tail htail]
+
+/-- **MergeRanges reaches the canonical list.** For every family of ranges of one series that keeps the invariant
+`Fam` (what the slices of a range query hand over: see `fam_of_runs`), in whatever order the ranges come: the result is
+sorted, no two ranges of it are within a step of each other, and it covers exactly the seconds the input covered. -/
+theorem mergeSeries_canon (step : Int) (hs : 1 ≤ step) (fp : Nat) (l : List MTR) (h : Fam step fp l) :
+    Canon step fp (mergeSeries step l) ∧ ∀ t, covered (mergeSeries step l) t ↔ covered l t := by
+  have g := (rec_spec step hs fp (l.length + 1) l h (Nat.le_succ _)).sort
+  unfold mergeSeries
+  exact ⟨⟨g.fam.wf, sortByStart_sorted _, g.fix⟩, g.cov⟩
+
+/-- **The result does not depend on the order in which the ranges arrive.** -/
+theorem merge_order_independent (step : Int) (hs : 1 ≤ step) (fp : Nat) (l₁ l₂ : List MTR) (h : Fam step fp l₁)
+    (p : l₁.Perm l₂) : mergeSeries step l₁ = mergeSeries step l₂ := by
+  obtain ⟨c1, v1⟩ := mergeSeries_canon step hs fp l₁ h
+  obtain ⟨c2, v2⟩ := mergeSeries_canon step hs fp l₂ (h.perm p)
+  exact canon_unique step hs fp _ _ c1 c2 (fun t => (v1 t).trans ((covered_perm p t).trans (v2 t).symm))
+
+/-- **Exactly the canonical ranges.** Whatever canonical list covers the same seconds as the input (the runs of the
+unsliced evaluation, for one) is what MergeRanges returns. -/
+theorem merge_is_canonical (step : Int) (hs : 1 ≤ step) (fp : Nat) (l R : List MTR) (h : Fam step fp l)
+    (hR : Canon step fp R) (hc : ∀ t, covered R t ↔ covered l t) : mergeSeries step l = R := by
+  obtain ⟨c1, v1⟩ := mergeSeries_canon step hs fp l h
+  exact canon_unique step hs fp _ _ c1 hR (fun t => (v1 t).trans (hc t).symm)
+
 end Pint.Props.C13
